@@ -477,7 +477,11 @@ Fixpoint was_chars (s : str) (pos start end_ : Z) : str :=
       ++ was_chars r char_end start end_
   end.
 
-(* the loop of FmtStr.width_aware_slice *)
+(* the loop of FmtStr.width_aware_slice:
+     if index.start < counter + chunk.width and index.stop >= counter:
+         s_part = width_aware_slice(chunk.s, index.start - counter, index.stop - counter)
+         if s_part == chunk.s: parts.append(chunk)          (the SAME Chunk object)
+         elif s_part: parts.append(Chunk(s_part, chunk.atts))  (a new one; nothing when s_part is empty) *)
 Fixpoint was_walk (cs : list (nat * chunk)) (start stop counter : Z) : res (list elem) :=
   match cs with
   | [] => Ok []
@@ -486,11 +490,13 @@ Fixpoint was_walk (cs : list (nat * chunk)) (start stop counter : Z) : res (list
       | Raise e => Raise e
       | Ok w =>
           let part :=
-            if ((start <? counter + w) && (stop >? counter))%Z then
-              let s := Z.max 0 (start - counter) in
-              let e := Z.min (stop - counter) w in
-              if (e - s =? w)%Z then [Old r]
-              else [New (was_chars (c_s ch) 0 (Z.max 0 (start - counter)) (stop - counter)) (c_a ch)]
+            if ((start <? counter + w) && (stop >=? counter))%Z then
+              let s_part := was_chars (c_s ch) 0 (start - counter) (stop - counter) in
+              if str_eqb s_part (c_s ch) then [Old r]
+              else match s_part with
+                   | [] => []
+                   | _ => [New s_part (c_a ch)]
+                   end
             else [] in
           let counter := (counter + w)%Z in
           if (stop <? counter)%Z then Ok part
